@@ -3,7 +3,7 @@
 tier=${1:-quick}
 cd "$(dirname "$0")" || exit 2
 out=${RUNALL_OUT:-/tmp}
-for p in C01 C02 C03 C04 C05 C06 C07 C08 C09 C10 C11 C12 C13 C14 C15 C16 C17 C18 C19 C20; do
+for p in ${RUNALL_PIDS:-C01 C02 C03 C04 C05 C06 C07 C08 C09 C10 C11 C12 C13 C14 C15 C16 C17 C18 C19 C20}; do
   s=$(date +%s)
   timeout 3000 ./check $p --tier $tier > $out/runall_$p.out 2>&1
   rc=$?
